@@ -613,7 +613,16 @@ impl Model {
                 }
                 let rest = &args[i.min(n)..];
                 if rest.len() != 2 {
-                    return if rest.is_empty() || rest.len() % 2 != 0 { Exp::Err } else { Exp::Any };
+                    if rest.is_empty() || rest.len() % 2 != 0 {
+                        return Exp::Err;
+                    }
+                    // several streams: every id is checked before anything is delivered (Redis parses them all first), so
+                    // one malformed id refuses the whole call without any effect; well-formed calls are not modelled
+                    let ids = &rest[rest.len() / 2..];
+                    if ids.iter().any(|x| x.as_slice() != b">" && !matches!(range_id(x, false), Some(Some(_)))) {
+                        return Exp::Err;
+                    }
+                    return Exp::Any;
                 }
                 let key = rest[0].clone();
                 let idb = rest[1].clone();
